@@ -69,8 +69,18 @@ def runModel (p : Pool) : List (POp × Option Nat) → List String
     let (p', r) := pstep p op fuel
     (resStr r ++ " " ++ poolStr p') :: runModel p' rest
 
+/-- an element built from constructor arguments `(n, v)`: n copies of v (`T(n, v)`, never `T{n, v}`) -/
+def ilModel (spec : String) : String :=
+  match spec.splitOn ":" with
+  | [n, v, _w, _t] =>
+    match n.toNat?, v.toNat? with
+    | some n, some v => "ok " ++ ".".intercalate (List.replicate n (toString v))
+    | _, _ => "bad-op"
+  | _ => "bad-op"
+
 def model (f : List String) : String :=
   match f with
+  | [_sub, "il", spec] => ilModel spec
   | [_sub, _kind, ops] =>
     match parseOps ops with
     | some ops => ";".intercalate (runModel [none, none, none] ops)
@@ -278,6 +288,8 @@ def feats (ops : List (POp × Option Nat)) (ans : String) : String :=
 
 def judge (f : List String) (ans : String) : String :=
   match f with
+  | [_sub, "il", spec] =>
+    if ans = ilModel spec then "ok\tbuilt-from-arguments nt" else "bad:" ++ ans ++ " want " ++ ilModel spec ++ "\tbuilt-from-arguments nt"
   | [sub, _kind, ops] =>
     match parseOps ops with
     | none => "bad-op"
